@@ -83,13 +83,13 @@ type interpreter struct {
 	globals            map[*ssa.Global]*value // addresses of global variables (immutable)
 	stubs              map[string]externalFn  // per-entry stubs, by SSA function name
 	stubFns            map[string]*ssa.Function
-	mode               Mode                   // interpreter options
-	reflectPackage     *ssa.Package           // the fake reflect package
-	errorMethods       methodSet              // the method set of reflect.error, which implements the error interface.
-	rtypeMethods       methodSet              // the method set of rtype, which implements the reflect.Type interface.
-	runtimeErrorString types.Type             // the runtime.errorString type
-	sizes              types.Sizes            // the effective type-sizing function
-	goroutines         int32                  // atomically updated
+	mode               Mode         // interpreter options
+	reflectPackage     *ssa.Package // the fake reflect package
+	errorMethods       methodSet    // the method set of reflect.error, which implements the error interface.
+	rtypeMethods       methodSet    // the method set of rtype, which implements the reflect.Type interface.
+	runtimeErrorString types.Type   // the runtime.errorString type
+	sizes              types.Sizes  // the effective type-sizing function
+	goroutines         int32        // atomically updated
 	fninfo             map[*ssa.Function]*fnInfo
 	depth              int
 	skipInit           map[string]bool   // package paths whose init is not run
